@@ -705,13 +705,15 @@ impl Model {
                 }
                 if !valid {
                     if checked {
+                        // any error is fine (a hard link onto an existing destination may fail
+                        // before verification); what matters is that nothing unverified is left
                         return match out {
-                            Out::ExtractErr { kind: ErrKind::Integrity, dest: d, .. } if dest_untouched(d) => Ok(()),
-                            Out::ExtractErr { kind: ErrKind::Integrity, dest: d, .. } => Err(format!(
-                                "{what}: verification failed but the destination now holds {:?} (before the call: {:?})",
+                            Out::ExtractErr { dest: d, .. } if dest_untouched(d) => Ok(()),
+                            Out::ExtractErr { dest: d, .. } => Err(format!(
+                                "{what}: the checked extraction failed but the destination now holds {:?} (before the call: {:?})",
                                 d, pre
                             )),
-                            o => Err(format!("{what}: damaged content, expected the integrity error, got {}", o.short())),
+                            o => Err(format!("{what}: damaged content, expected an error, got {}", o.short())),
                         };
                     }
                     return match out {
